@@ -23,8 +23,8 @@ open Hls.Gen Hls.Gen.TimeConv Hls.Client.TimeConv Hls.Client.Process Hls.Client.
 
 /-- admissible source pins. `clientStreamProcessorFMP4.run` may be the original or carry the repairs of F9 / F8 /
     both (the regenerated flags must then say so); `processSegment` may carry the repair of F17 (capacity of the
-    completion channel — scheduling only, invisible to this sequential model) and the repair of F15 (a segment without any
-    sample is skipped, a leading stream without origin errors at its end — outside `WF`: every downloaded segment of a
+    completion channel — scheduling only, invisible to this sequential model) and the repair of F15 in its refined form (a segment that has a fragment
+    but no sample is skipped, a body without any fragment stays the error, a leading stream without origin errors at its end — outside `WF`: every downloaded segment of a
     well-formed stream carries leading-track data; modelled and proved in `Hls/Robust`, property C13). -/
 def expectedPins : List (String × List String) := [
   ("clientTimeConvFMP4.setNTP", ["32fa93852b4eba70"]),
@@ -41,7 +41,7 @@ def expectedPins : List (String × List String) := [
   ("findFirstPartTrackOfLeadingTrack", ["2bb7fd75aa060dbc"]),
   ("findTimeScaleOfLeadingTrack", ["85f8749fc2e183db"]),
   ("clientStreamProcessorFMP4.run", ["b25342f715ab4df2", "536bbd6fdc442c2c", "58af94543df442ed", "123729b57b835024"]),
-  ("clientStreamProcessorFMP4.processSegment", ["2a497942e04fede6", "ac1e07081f019abd", "5a26127ffe25d210"]),
+  ("clientStreamProcessorFMP4.processSegment", ["2a497942e04fede6", "ac1e07081f019abd", "6e831d6096110be3"]),
   ("clientStreamProcessorFMP4.initializeTrackProcessors", ["75c37fc75a806c4b"]),
   ("mpegtsPickLeadingTrack", ["01552debe7b205e2"]),
   ("clientStreamProcessorMPEGTS.processSegment", ["b62bfcb71a3c99ef"]),
